@@ -12,80 +12,58 @@ variable {P Hsh : Type} [DecidableEq P] [DecidableEq Hsh] (H : P → Hsh) (hash 
 
 theorem inv_upAdd {s s' : Pair P} (hI : Inv H hash s) (h : step H hash s (.upAdd) = some s') :
     Inv H hash s' := by
-  obtain ⟨a1, a2, a3, a4, a5, a6, a7, a8, a9, a10, a11, a12, a13, a14, a15, a16, a17, a18, a19, a20, a21, a22, a23, a24, a25, a26, a27⟩ := hI
+  obtain ⟨a1, a2, a3, a4, a5, a6, a7, a8, a9, a10, a11, a12, a13, a14, a15, a16, a17, a18, a19, a20, a21, a22, a23, a24, a25, a26, a27, a28, a29, a30, a31, a32, a33, a34, a35⟩ := hI
   simp only [LndModel.C08.step] at h; split at h <;> cases h; constructor <;> life_grind
 
 theorem inv_downSettle {s s' : Pair P} (p : P) (hI : Inv H hash s) (h : step H hash s (.downSettle p) = some s') :
     Inv H hash s' := by
-  obtain ⟨a1, a2, a3, a4, a5, a6, a7, a8, a9, a10, a11, a12, a13, a14, a15, a16, a17, a18, a19, a20, a21, a22, a23, a24, a25, a26, a27⟩ := hI
+  obtain ⟨a1, a2, a3, a4, a5, a6, a7, a8, a9, a10, a11, a12, a13, a14, a15, a16, a17, a18, a19, a20, a21, a22, a23, a24, a25, a26, a27, a28, a29, a30, a31, a32, a33, a34, a35⟩ := hI
   simp only [LndModel.C08.step, stepDownSettle] at h
-  split at h
-  · split at h
-    · split at h <;> cases h <;> constructor <;> life_grind
-    · cases h; constructor <;> life_grind
-  · cases h
+  (repeat' split at h) <;> cases h <;> constructor <;> life_grind
 
 theorem inv_downFail {s s' : Pair P} (hI : Inv H hash s) (h : step H hash s (.downFail) = some s') :
     Inv H hash s' := by
-  obtain ⟨a1, a2, a3, a4, a5, a6, a7, a8, a9, a10, a11, a12, a13, a14, a15, a16, a17, a18, a19, a20, a21, a22, a23, a24, a25, a26, a27⟩ := hI
+  obtain ⟨a1, a2, a3, a4, a5, a6, a7, a8, a9, a10, a11, a12, a13, a14, a15, a16, a17, a18, a19, a20, a21, a22, a23, a24, a25, a26, a27, a28, a29, a30, a31, a32, a33, a34, a35⟩ := hI
   simp only [LndModel.C08.step] at h; split at h <;> cases h; constructor <;> life_grind
 
-theorem inv_setFwdFilter {s s' : Pair P} (hI : Inv H hash s) (h : step H hash s (.setFwdFilter) = some s') :
+theorem inv_decide {s s' : Pair P} (b : Bool) (hI : Inv H hash s) (h : step H hash s (.decide b) = some s') :
     Inv H hash s' := by
-  obtain ⟨a1, a2, a3, a4, a5, a6, a7, a8, a9, a10, a11, a12, a13, a14, a15, a16, a17, a18, a19, a20, a21, a22, a23, a24, a25, a26, a27⟩ := hI
+  obtain ⟨a1, a2, a3, a4, a5, a6, a7, a8, a9, a10, a11, a12, a13, a14, a15, a16, a17, a18, a19, a20, a21, a22, a23, a24, a25, a26, a27, a28, a29, a30, a31, a32, a33, a34, a35⟩ := hI
   simp only [LndModel.C08.step] at h; split at h <;> cases h; constructor <;> life_grind
 
-theorem inv_commitCircuit {s s' : Pair P} (hI : Inv H hash s) (h : step H hash s (.commitCircuit) = some s') :
+theorem inv_localReject {s s' : Pair P} (ref : Ref) (hI : Inv H hash s) (h : step H hash s (.localReject ref) = some s') :
     Inv H hash s' := by
-  obtain ⟨a1, a2, a3, a4, a5, a6, a7, a8, a9, a10, a11, a12, a13, a14, a15, a16, a17, a18, a19, a20, a21, a22, a23, a24, a25, a26, a27⟩ := hI
+  obtain ⟨a1, a2, a3, a4, a5, a6, a7, a8, a9, a10, a11, a12, a13, a14, a15, a16, a17, a18, a19, a20, a21, a22, a23, a24, a25, a26, a27, a28, a29, a30, a31, a32, a33, a34, a35⟩ := hI
   simp only [LndModel.C08.step] at h; split at h <;> cases h; constructor <;> life_grind
 
-theorem inv_reforward {s s' : Pair P} (hI : Inv H hash s) (h : step H hash s (.reforward) = some s') :
+theorem inv_commitCircuit {s s' : Pair P} (ref : Ref) (hI : Inv H hash s) (h : step H hash s (.commitCircuit ref) = some s') :
     Inv H hash s' := by
-  obtain ⟨a1, a2, a3, a4, a5, a6, a7, a8, a9, a10, a11, a12, a13, a14, a15, a16, a17, a18, a19, a20, a21, a22, a23, a24, a25, a26, a27⟩ := hI
+  obtain ⟨a1, a2, a3, a4, a5, a6, a7, a8, a9, a10, a11, a12, a13, a14, a15, a16, a17, a18, a19, a20, a21, a22, a23, a24, a25, a26, a27, a28, a29, a30, a31, a32, a33, a34, a35⟩ := hI
+  simp only [LndModel.C08.step] at h; split at h <;> cases h; constructor <;> life_grind
+
+theorem inv_refwdFail {s s' : Pair P} (ref : Ref) (hI : Inv H hash s) (h : step H hash s (.refwdFail ref) = some s') :
+    Inv H hash s' := by
+  obtain ⟨a1, a2, a3, a4, a5, a6, a7, a8, a9, a10, a11, a12, a13, a14, a15, a16, a17, a18, a19, a20, a21, a22, a23, a24, a25, a26, a27, a28, a29, a30, a31, a32, a33, a34, a35⟩ := hI
   simp only [LndModel.C08.step] at h; split at h <;> cases h; constructor <;> life_grind
 
 theorem inv_switchFail {s s' : Pair P} (hI : Inv H hash s) (h : step H hash s (.switchFail) = some s') :
     Inv H hash s' := by
-  obtain ⟨a1, a2, a3, a4, a5, a6, a7, a8, a9, a10, a11, a12, a13, a14, a15, a16, a17, a18, a19, a20, a21, a22, a23, a24, a25, a26, a27⟩ := hI
-  simp only [LndModel.C08.step] at h; split at h <;> cases h; constructor <;> life_grind
-
-theorem inv_refwdResp {s s' : Pair P} (hI : Inv H hash s) (h : step H hash s (.refwdResp) = some s') :
-    Inv H hash s' := by
-  obtain ⟨a1, a2, a3, a4, a5, a6, a7, a8, a9, a10, a11, a12, a13, a14, a15, a16, a17, a18, a19, a20, a21, a22, a23, a24, a25, a26, a27⟩ := hI
-  simp only [LndModel.C08.step] at h
-  split at h
-  · split at h <;> cases h; constructor <;> life_grind
-  · cases h
-
-theorem inv_ackDup {s s' : Pair P} (hI : Inv H hash s) (h : step H hash s (.ackDup) = some s') :
-    Inv H hash s' := by
-  obtain ⟨a1, a2, a3, a4, a5, a6, a7, a8, a9, a10, a11, a12, a13, a14, a15, a16, a17, a18, a19, a20, a21, a22, a23, a24, a25, a26, a27⟩ := hI
-  simp only [LndModel.C08.step] at h; split at h <;> cases h; constructor <;> life_grind
-
-theorem inv_localReject {s s' : Pair P} (hI : Inv H hash s) (h : step H hash s (.localReject) = some s') :
-    Inv H hash s' := by
-  obtain ⟨a1, a2, a3, a4, a5, a6, a7, a8, a9, a10, a11, a12, a13, a14, a15, a16, a17, a18, a19, a20, a21, a22, a23, a24, a25, a26, a27⟩ := hI
+  obtain ⟨a1, a2, a3, a4, a5, a6, a7, a8, a9, a10, a11, a12, a13, a14, a15, a16, a17, a18, a19, a20, a21, a22, a23, a24, a25, a26, a27, a28, a29, a30, a31, a32, a33, a34, a35⟩ := hI
   simp only [LndModel.C08.step] at h; split at h <;> cases h; constructor <;> life_grind
 
 theorem inv_sendDownAdd {s s' : Pair P} (hI : Inv H hash s) (h : step H hash s (.sendDownAdd) = some s') :
     Inv H hash s' := by
-  obtain ⟨a1, a2, a3, a4, a5, a6, a7, a8, a9, a10, a11, a12, a13, a14, a15, a16, a17, a18, a19, a20, a21, a22, a23, a24, a25, a26, a27⟩ := hI
+  obtain ⟨a1, a2, a3, a4, a5, a6, a7, a8, a9, a10, a11, a12, a13, a14, a15, a16, a17, a18, a19, a20, a21, a22, a23, a24, a25, a26, a27, a28, a29, a30, a31, a32, a33, a34, a35⟩ := hI
   simp only [LndModel.C08.step] at h; split at h <;> cases h; constructor <;> life_grind
 
-theorem inv_relayUp {s s' : Pair P} (r : Res P) (hI : Inv H hash s) (h : step H hash s (.relayUp r) = some s') :
+theorem inv_openKeystone {s s' : Pair P} (hI : Inv H hash s) (h : step H hash s (.openKeystone) = some s') :
     Inv H hash s' := by
-  obtain ⟨a1, a2, a3, a4, a5, a6, a7, a8, a9, a10, a11, a12, a13, a14, a15, a16, a17, a18, a19, a20, a21, a22, a23, a24, a25, a26, a27⟩ := hI
+  obtain ⟨a1, a2, a3, a4, a5, a6, a7, a8, a9, a10, a11, a12, a13, a14, a15, a16, a17, a18, a19, a20, a21, a22, a23, a24, a25, a26, a27, a28, a29, a30, a31, a32, a33, a34, a35⟩ := hI
   simp only [LndModel.C08.step] at h; split at h <;> cases h; constructor <;> life_grind
 
-theorem inv_resendUp {s s' : Pair P} (hI : Inv H hash s) (h : step H hash s (.resendUp) = some s') :
+theorem inv_downSignPersist {s s' : Pair P} (hI : Inv H hash s) (h : step H hash s (.downSignPersist) = some s') :
     Inv H hash s' := by
-  obtain ⟨a1, a2, a3, a4, a5, a6, a7, a8, a9, a10, a11, a12, a13, a14, a15, a16, a17, a18, a19, a20, a21, a22, a23, a24, a25, a26, a27⟩ := hI
-  simp only [LndModel.C08.step] at h; split at h <;> cases h; constructor <;> life_grind
-
-theorem inv_resendDown {s s' : Pair P} (hI : Inv H hash s) (h : step H hash s (.resendDown) = some s') :
-    Inv H hash s' := by
-  obtain ⟨a1, a2, a3, a4, a5, a6, a7, a8, a9, a10, a11, a12, a13, a14, a15, a16, a17, a18, a19, a20, a21, a22, a23, a24, a25, a26, a27⟩ := hI
+  obtain ⟨a1, a2, a3, a4, a5, a6, a7, a8, a9, a10, a11, a12, a13, a14, a15, a16, a17, a18, a19, a20, a21, a22, a23, a24, a25, a26, a27, a28, a29, a30, a31, a32, a33, a34, a35⟩ := hI
   simp only [LndModel.C08.step] at h; split at h <;> cases h; constructor <;> life_grind
 
 end LndModel.C08
